@@ -23,7 +23,7 @@ RULE = ("models x parameter points x starting guesses x (flat, linear) flags x s
         "distinct non-trivial = (model, parameter point, guess, flags, blocks, plan, variants) for solves that complete")
 MANIFEST_ENTRY = dict(level="exploration", design="DESIGN.md section 4 / C05",
     technique="bounded-exhaustive enumeration of generated models x parameter grid x guesses x flags x block splitting x steady plans x variants; residual substitution of the reported steady path into the harness's own expression trees",
-    text="For 10 generated models x 2-3 parameter points x 2-3 starting guesses x admissible (flat, linear) flags x split_into_blocks on/off x every plan of the listed family (none; fix_level and fix_change of each variable; each listed exogenize/endogenize swap whose Jacobian the harness finds non-singular) x {1, 3 variants}: whenever solve_steady completes, the path built from the reported levels and changes (constant, linear, geometric for log-variables) satisfies every steady equation (the `!!` variant where given) at dates -3..3 by the harness's own evaluator; fixed and exogenized names keep exactly their assigned values; endogenized parameters change and the equations hold with them; block-split and one-system solutions agree where the steady state is unique; variant k equals a fresh single-variant solve.",
+    text="For 10 generated models x 2 (quick) / 3 (thorough) parameter points x 2 / 3 starting guesses x admissible (flat, linear) flags x split_into_blocks on/off x every plan of the listed family (none; fix_level and fix_change of each variable; each listed exogenize/endogenize swap whose Jacobian the harness finds non-singular) x {1, 3 variants}: whenever solve_steady completes, the path built from the reported levels and changes (constant, linear, geometric for log-variables) satisfies every steady equation (the `!!` variant where given) at dates -3..3 by the harness's own evaluator; fixed and exogenized names keep exactly their assigned values; endogenized parameters change and the equations hold with them; block-split and one-system solutions agree where the steady state is unique; variant k equals a fresh single-variant solve.",
     note="Trusted: ref/expr evaluator. Non-convergence (exception) is counted, not gated; every model must converge for at least one listed guess (floor). Newton basins beyond the listed guesses are not explored.")
 ASSUMPTIONS = ["the equality tolerance of the model (1e-12 default solver tolerance) maps to 1e-7 relative residual on the steady path"]
 
@@ -54,7 +54,7 @@ def mul(*xs):
     return out
 
 
-def models():
+def models(tier="quick"):
     """dict(name, vars, mvars, log, shocks, params (list of dicts = grid), eqs [(lhs, rhs, steady_rhs|None)], meqs,
             linear_ok, flat_ok (list of admissible flat flags), guesses (list of dicts), unique (steady state unique?),
             swaps [(var, param)])"""
@@ -126,6 +126,12 @@ def models():
         md.setdefault("mvars", [])
         md.setdefault("meqs", [])
         md.setdefault("fix_endo", [])
+        if tier != "quick":
+            # thorough: a third parameter point (between the listed ones, or a perturbation) and a third starting guess
+            p0, p1 = md["params"][0], md["params"][-1]
+            md["params"] = md["params"] + [{k: round(0.35 * p0[k] + 0.65 * p1[k], 6) if p0 is not p1 else round(p0[k] * 0.9, 6) for k in p0}]
+            g = md["guesses"][-1]
+            md["guesses"] = md["guesses"] + [{k: v * 1.4 + 0.1 for k, v in g.items()}]
     return M
 
 
@@ -260,6 +266,8 @@ def configs(md):
                             out.append((flat, linear, split, plan, 1, pi, gi))
                     if plan[0] == "none" and len(md["params"]) > 1:
                         out.append((flat, linear, split, plan, 3, 0, 0))
+                    if plan[0] == "none" and len(md["params"]) > 2:
+                        out.append((flat, linear, split, plan, 3, 0, 1))
     return out
 
 
@@ -441,7 +449,7 @@ CHUNK = 12
 
 
 def shard(item, res, ctx):
-    md = [x for x in models() if x["name"] == item["model"]][0]
+    md = [x for x in models(ctx.tier) if x["name"] == item["model"]][0]
     cfgs = shard_configs(md, item["flat"], item["pi"])
     cache = prime_cache(md, item["flat"], item["pi"], ctx)
     mine = cfgs[item["lo"]: item["lo"] + CHUNK]
@@ -457,7 +465,7 @@ def shard(item, res, ctx):
 
 def run(ctx, total, info):
     shards = []
-    for md in models():
+    for md in models(ctx.tier):
         for flat in md["flat_ok"]:
             for pi in range(len(md["params"])):
                 for lo in range(0, len(shard_configs(md, flat, pi)), CHUNK):
@@ -466,13 +474,13 @@ def run(ctx, total, info):
     c = total.counters
     info["exhaustive"] = True
     info["floors"] = {"solved": (c.get("solved", 0), 250), "multi_block_structures": (len(total.classes.get("num_blocks", ())), 5)}
-    for md in models():
+    for md in models(ctx.tier):
         info["floors"]["solved_" + md["name"]] = (c.get("solved_" + md["name"], 0), 6)
 
 
 def replay(case):
     res = engine.Result()
-    md = [x for x in models() if x["name"] == case["model"]][0]
+    md = [x for x in models("thorough") if x["name"] == case["model"]][0]     # superset: indices of quick cases are unchanged
     cfg = case["config"]
     want = (cfg[0], cfg[1], cfg[2], tuple(cfg[3]), cfg[4], cfg[5], cfg[6])
     ctx = engine.Ctx("quick", 0)
